@@ -37,5 +37,20 @@ def vary(rng, items, lines, p=0.5):
             line = case_mnemonic(rng, line)
         if rng.random() < p * 0.6:
             line = paren_imm(rng, it, line)
+        if it['k'] not in ('string', 'gap', 'raw'):
+            line = comment(rng, line, p * 0.4)
         out.append(line)
     return out
+
+
+# comments (documented: `#` to the end of the line) whose text looks like something the assembler knows
+COMMENTS = ['# save string pointer', '# error code in a0', '#string x', '# include defs.asm', '# x1, x2', '# bytes 1 2 3', '# K = 5', '# loop:',
+            '# 50% done', "# don't", '# (see above', '# pack <I 5', '# align 4', '# error', '# string', '# li x1, 1 # twice', '#']
+
+
+def comment(rng, line, p=0.3):
+    """append a trailing comment to a line that is not a `string` / `error` directive (their text runs to the end of the line)"""
+    s = line.lstrip().lower()
+    if rng.random() >= p or s.startswith(('string', 'error')):
+        return line
+    return line + rng.choice(['  ', ' ', '\t', '   ']) + rng.choice(COMMENTS)
